@@ -66,6 +66,17 @@ def dim_contract():
     return guarded("dim", run)
 
 
+def config_names():
+    """every key shape the configuration validator admits (X$, XY$, X1$, X$(), XY$(), X1$()) is mapped to the identifier the
+    tool emits for that variable: scalars unchanged, arrays to arr_<name>$ - injectively"""
+    keys = ["A$", "AB$", "A1$", "Z9$", "A$()", "AB$()", "A1$()", "AC$()", "Z9$()"]
+    cfg = StringConfigs(strname_to_size={k: 40 + i for i, k in enumerate(keys)})
+    v = V.SetDimStringStorageVisitor(default_str_storage=80, string_configs=cfg)
+    st = E.BasicDimStatement([E.BasicVar("A$", True)])
+    v.visit_statement(st)
+    want = {(k if not k.endswith("()") else "arr_" + k[:-2]): 40 + i for i, k in enumerate(keys)}
+    return [ob("steps/configuration names map to emitted identifiers", st.strname_to_size == want, want, st.strname_to_size)]
+
 def pass_steps():
     def run():
         res = []
@@ -81,6 +92,19 @@ def pass_steps():
         g = V.GetDimmedArraysVisitor()
         g.visit_statement(st)
         res.append(ob("steps/GetDimmedArrays", g.dimmed_var_names == {"arr_N$", "arr_K"}, ["arr_K", "arr_N$"], sorted(g.dimmed_var_names)))
+        g.visit_statement(OpqStmt("other"))
+        g.visit_statement(E.BasicDimStatement([aref("Z9", (1,)), E.BasicVar("W")]))
+        res.append(ob("steps/GetDimmedArrays accumulates over all DIM statements", g.dimmed_var_names == {"arr_N$", "arr_K", "arr_Z9"}, ["arr_K", "arr_N$", "arr_Z9"], sorted(g.dimmed_var_names)))
+        v2 = V.SetDimStringStorageVisitor(default_str_storage=80, string_configs=cfg)
+        v2.visit_statement(st)
+        v2.visit_statement(E.BasicDimStatement([aref("Z9$", (1,)), E.BasicVar("W$", True)]))
+        res.append(ob("steps/SetDimStringStorage accumulates over all DIM statements", v2.dimmed_var_names == {"arr_N$", "Q$", "arr_K", "arr_Z9$", "W$"},
+                      ["Q$", "W$", "arr_K", "arr_N$", "arr_Z9$"], sorted(v2.dimmed_var_names)))
+        res += config_names()
+        a16 = V.StrVarAllocatorVisitor(default_str_storage=16, dimmed_var_names=set())
+        a16.visit_var(E.BasicVar("A$", True))
+        got16 = [l.basic09_text(0) for l in a16.allocation_lines]
+        res.append(ob("steps/StrVarAllocator declares at sizes below 32 too", got16 == ["DIM A$:STRING[16]"], ["DIM A$:STRING[16]"], got16))
         d = V.DeclareImplicitArraysVisitor(dimmed_var_names={"arr_K"}, initialize_vars=False)
         for nm in ("K", "J", "J", "P$"):
             d.visit_array_ref(aref(nm, (1,)))
@@ -178,4 +202,6 @@ def positions():
 
 
 def obligations():
-    return dim_contract() + pass_steps() + positions()
+    # the requested size reaches the library through `string<<>>`: a sized string handed on inside the library keeps it
+    from tx.p_c14 import sized_strings_stay_sized
+    return dim_contract() + pass_steps() + positions() + sized_strings_stay_sized()
